@@ -21,6 +21,7 @@ package PKGNAME
 
 import (
 	"fmt"
+	"gonum.org/v1/gonum/mat"
 	"os"
 	"path/filepath"
 	"sort"
@@ -279,9 +280,20 @@ func vIdentFiles(c *vCase, ds *AnySource, what string) {
 		c.Inconclusive("setup", "ChangeTriggerState: %v", err)
 		return
 	}
+	// a one-component model on every stream, so that OFF files are written too
+	for ch := 0; ch < ds.nchan; ch++ {
+		pd, bd := make([]float64, nsamp), make([]float64, nsamp)
+		for i := range pd {
+			pd[i], bd[i] = 1.0/float64(nsamp), 1
+		}
+		if err := ds.ConfigureProjectorsBases(ch, mat.NewDense(1, nsamp, pd), mat.NewDense(nsamp, 1, bd), "ident"); err != nil {
+			c.Inconclusive("setup", "projectors rejected: %v", err)
+			return
+		}
+	}
 	base := filepath.Join(c.Dir, "ident")
 	os.MkdirAll(base, 0o755)
-	if err := ds.WriteControl(&WriteControlConfig{Request: "START", Path: base, WriteLJH22: true, WriteLJH3: true}); err != nil {
+	if err := ds.WriteControl(&WriteControlConfig{Request: "START", Path: base, WriteLJH22: true, WriteLJH3: true, WriteOFF: true}); err != nil {
 		c.Violate("c19:start-rejected", "%s: START of LJH writing failed on an accepted configuration: %v", what, err)
 		return
 	}
@@ -310,20 +322,55 @@ func vIdentFiles(c *vCase, ds *AnySource, what string) {
 		return
 	}
 	ents, _ := os.ReadDir(dir)
-	var ljh22, ljh3 []string
+	var ljh22, ljh3, offs []string
 	for _, e := range ents {
 		switch {
+		case strings.HasSuffix(e.Name(), ".off"):
+			offs = append(offs, e.Name())
 		case strings.HasSuffix(e.Name(), ".ljh"):
 			ljh22 = append(ljh22, e.Name())
 		case strings.HasSuffix(e.Name(), ".ljh3"):
 			ljh3 = append(ljh3, e.Name())
 		}
 	}
-	if len(ljh22) != ds.nchan || len(ljh3) != ds.nchan {
-		c.Violate("c19:shared-file", "%s: %d streams each wrote one record, but the directory holds %d LJH2.2 and %d LJH3 files: streams share output files", what, ds.nchan, len(ljh22), len(ljh3))
+	if len(ljh22) != ds.nchan || len(ljh3) != ds.nchan || len(offs) != ds.nchan {
+		c.Violate("c19:shared-file", "%s: %d streams each wrote one record, but the directory holds %d LJH2.2, %d LJH3 and %d OFF files: streams share output files", what, ds.nchan, len(ljh22), len(ljh3), len(offs))
 		return
 	}
 	names := ds.ChannelNames()
+	seenOff := map[int]bool{}
+	for _, fn := range offs {
+		b, _ := os.ReadFile(filepath.Join(dir, fn))
+		pf, err := vParseOFF(b)
+		if err != nil {
+			c.Violate("c19:file-parse", "%s: %s: %v", what, fn, err)
+			return
+		}
+		h := pf.hdr
+		idx := h.ChannelIndex
+		if idx < 0 || idx >= ds.nchan || seenOff[idx] {
+			c.Violate("c19:file-index", "%s: %s: header stream index %d is out of range or appears in two OFF files", what, fn, idx)
+			return
+		}
+		seenOff[idx] = true
+		rc := ds.rowColCodes[idx]
+		if h.ChannelName != names[idx] || h.ChannelNumberMatchingName != ds.chanNumbers[idx] || h.ReadoutInfo.RowNum != rc.row() || h.ReadoutInfo.ColumnNum != rc.col() ||
+			h.ReadoutInfo.NumberOfRows != rc.rows() || h.ReadoutInfo.NumberOfColumns != rc.cols() {
+			c.Violate("c19:header-identity", "%s: %s: OFF header says name %q number %d row %d col %d of %dx%d; status says name %q number %d row %d col %d of %dx%d", what, fn,
+				h.ChannelName, h.ChannelNumberMatchingName, h.ReadoutInfo.RowNum, h.ReadoutInfo.ColumnNum, h.ReadoutInfo.NumberOfRows, h.ReadoutInfo.NumberOfColumns,
+				names[idx], ds.chanNumbers[idx], rc.row(), rc.col(), rc.rows(), rc.cols())
+			return
+		}
+		if !strings.Contains(fn, "_"+names[idx]+".") {
+			c.Violate("c19:file-name", "%s: OFF file %s belongs to stream %q", what, fn, names[idx])
+			return
+		}
+		if len(pf.recs) != 1 {
+			c.Violate("c19:shared-file", "%s: %s holds %d records, its stream wrote 1", what, fn, len(pf.recs))
+			return
+		}
+		c.Cov("file_headers_checked", 1)
+	}
 	seenIdx := map[int]bool{}
 	for _, fn := range ljh22 {
 		b, _ := os.ReadFile(filepath.Join(dir, fn))
@@ -529,7 +576,115 @@ func vIdentSimple(c *vCase) {
 	c.Cov("simple_sources", 1)
 }
 
+// vIdentServer: what the server reports. Two or three Start/Stop cycles of the scripted Lancero card through an in-package
+// SourceControl, the first-row number (and sometimes the geometry) changing in between: after each Start the channel groups in
+// the server's STATUS (field and the message sent to clients) must cover exactly the channel numbers the source uses.
+func vIdentServer(c *vCase) {
+	r := c.R
+	viper.Reset()
+	sc, stop := vNewInPackageControl()
+	defer close(stop)
+	nrows, ncols := 2+r.Intn(3), 1+r.Intn(2)
+	first := 1
+	for cyc := 0; cyc < 2+r.Intn(2); cyc++ {
+		switch r.Intn(4) {
+		case 0: // same numbering again
+		case 1:
+			nrows = 2 + r.Intn(3) // other geometry, possibly another stream count
+			first = vPick(r, 1, 101, 33)
+		default:
+			first = vPick(r, 1, 2, 101, 33, 1000) // same stream count, other numbers
+		}
+		card := vEndlessCard(nrows, ncols, uint64(r.Int63()))
+		ls := sc.lancero
+		card.backlog = func() int { return len(ls.buffersChan) }
+		ls.nsamp = 1
+		dev := &LanceroDevice{devnum: 0, nrows: nrows, ncols: ncols, lsync: 2000, clockMHz: 125, card: card}
+		ls.devices = map[int]*LanceroDevice{0: dev}
+		ls.active = []*LanceroDevice{dev}
+		ls.ncards, ls.clockMHz, ls.firstRowChanNum = 1, 125, first
+		ls.configError = nil
+		vClientReset(true)
+		name := "LANCEROSOURCE"
+		var okay bool
+		var err error
+		if !vWatched(c, "Start", 30*time.Second, func() { err = sc.Start(&name, &okay) }) {
+			return
+		}
+		if err != nil {
+			c.Inconclusive("setup", "Start of the scripted Lancero card (rows %d cols %d first %d) failed: %v", nrows, ncols, first, err)
+			return
+		}
+		inUse := map[int]bool{}
+		for _, n := range ls.chanNumbers {
+			inUse[n] = true
+		}
+		cover := func(groups []GroupIndex) (map[int]bool, bool) {
+			m := map[int]bool{}
+			dup := false
+			for _, g := range groups {
+				for n := g.Firstchan; n < g.Firstchan+g.Nchan; n++ {
+					dup = dup || m[n]
+					m[n] = true
+				}
+			}
+			return m, dup
+		}
+		same := func(a, b map[int]bool) bool {
+			if len(a) != len(b) {
+				return false
+			}
+			for k := range a {
+				if !b[k] {
+					return false
+				}
+			}
+			return true
+		}
+		what := fmt.Sprintf("Start #%d of a Lancero source (rows %d, columns %d, first row number %d) through the server", cyc+1, nrows, ncols, first)
+		if m, dup := cover(sc.status.ChanGroups); dup || !same(m, inUse) {
+			c.Violate("c19:status-groups", "%s: the server's status reports channel groups %v, the streams use the numbers %v", what, sc.status.ChanGroups, ls.chanNumbers)
+		}
+		// the STATUS message clients receive
+		var last *ServerStatus
+		for i := 0; i < 300 && last == nil; i++ {
+			for _, u := range vClientSnapshot() {
+				if u.tag == "STATUS" {
+					if st, ok := u.state.(ServerStatus); ok && st.Running {
+						st := st
+						last = &st
+					}
+				}
+			}
+			if last == nil {
+				time.Sleep(time.Millisecond)
+			}
+		}
+		if last == nil {
+			c.Violate("c19:status-missing", "%s: no STATUS message with Running=true reached the client channel", what)
+		} else if m, dup := cover(last.ChanGroups); dup || !same(m, inUse) || last.Nchannels != len(ls.chanNumbers) {
+			c.Violate("c19:status-groups", "%s: the STATUS message reports %d channels in groups %v, the streams use the numbers %v", what, last.Nchannels, last.ChanGroups, ls.chanNumbers)
+		}
+		c.Cov("server_status_checks", 1)
+		vClientReset(false)
+		dummy := ""
+		if !vWatched(c, "Stop", 30*time.Second, func() { sc.Stop(&dummy, &okay) }) {
+			return
+		}
+		if c.Violated() {
+			return
+		}
+	}
+	c.Cov("server_sessions", 1)
+}
+
 func vRunIdentity(c *vCase) {
+	if c.Idx%80 == 12 {
+		vIdentServer(c)
+		c.Describe("%d/%d", c.Seed, c.Idx)
+		c.Nontrivial()
+		return
+	}
 	switch c.Idx % 8 {
 	case 0, 1, 2, 3:
 		vIdentLancero(c)
@@ -554,11 +709,11 @@ func init() {
 		},
 		Run: vRunIdentity,
 		Meta: vMeta{Level: "exploration",
-			Rule: "case = one source configuration: Lancero with 1-4 cards (arbitrary device numbers and order, rows 1-33, columns 1-8, equal or mixed row counts), first-row number, card/column separations drawn around the acceptance boundaries (negative, 0, one too small, exact, larger) through the real PrepareChannels, also on a re-used source object; Abaco group layouts (adjacent, spaced, overlapping by one or several channels, nested) through the real Sample+PrepareChannels with scripted packets; Triangle/SimPulse/Roach/AnySource defaults. For every accepted configuration the identity tables are checked (distinct names, partners share a number, no number collision, groups cover exactly the numbers in use, row/column codes = true geometry) and for a sample LJH2.2/LJH3 files are written and listed/decoded (one file per stream, header identity = reported identity); non-trivial = every configuration",
+			Rule:        "case = one source configuration: Lancero with 1-4 cards (arbitrary device numbers and order, rows 1-33, columns 1-8, equal or mixed row counts), first-row number, card/column separations drawn around the acceptance boundaries (negative, 0, one too small, exact, larger) through the real PrepareChannels, also on a re-used source object; Abaco group layouts (adjacent, spaced, overlapping by one or several channels, nested) through the real Sample+PrepareChannels with scripted packets; Triangle/SimPulse/Roach/AnySource defaults. For every accepted configuration the identity tables are checked (distinct names, partners share a number, no number collision, groups cover exactly the numbers in use, row/column codes = true geometry) and for a sample LJH2.2/LJH3/OFF files are written and listed/decoded (one file per stream and type, header identity = reported identity, file name carries the stream name). 1 of 80 cases is a server-level session: 2-3 Start/Stop cycles of a scripted Lancero card through an in-package SourceControl with the first-row number and/or geometry changing in between; after each Start the channel groups in the server's STATUS field and in the STATUS message sent to clients must cover exactly the numbers in use; non-trivial = every configuration",
 			Assumptions: []string{"outcome-based: a colliding configuration counts as rejected only if PrepareChannels/Sample returns an error; acceptance of a collision-free configuration is not required", "device geometry is set directly (what sampling the card would determine)"},
 			Guards: map[string]map[string]int{
 				"quick": {"lancero_accepted": 1000, "lancero_rejected": 1000, "lancero_accepted_with_card_separation": 150, "lancero_accepted_with_column_separation": 150, "lancero_accepted_multi_card": 300,
-					"lancero_accepted_mixed_rows": 50, "lancero_accepted_on_reused_object": 100, "abaco_accepted": 500, "abaco_rejected": 200, "write_sessions": 300, "file_headers_checked": 5000, "simple_sources": 500},
+					"lancero_accepted_mixed_rows": 50, "lancero_accepted_on_reused_object": 100, "abaco_accepted": 500, "abaco_rejected": 200, "write_sessions": 300, "file_headers_checked": 5000, "simple_sources": 500, "server_status_checks": 100},
 				"thorough": {"lancero_accepted": 20000, "abaco_accepted": 10000, "write_sessions": 6000},
 			}},
 	})
